@@ -5,6 +5,7 @@
 
 from __future__ import annotations
 from copy import deepcopy
+from itertools import chain
 
 from numpy import all as np_all
 from .._numpy_utils import (
@@ -20,6 +21,7 @@ from .._numpy_utils import (
     fuzzy_equal,
     walk_adjacent_true_index_ranges,
     make_initialized_array,
+    make_uninitialized_array,
     make_array,
     concatenate,
     make_zeros,
@@ -259,7 +261,7 @@ def _merge(
         for cell_idx, cell_corners in enumerate(mapped_connectivity):
             mapped_connectivity[cell_idx] = points2_map[cell_corners]
         if ct in cells_dict:
-            cells_dict[ct] = concatenate((cells_dict[ct], mapped_connectivity))
+            cells_dict[ct] = _concatenate_connectivities(cells_dict[ct], mapped_connectivity)
         else:
             cells_dict[ct] = mapped_connectivity
 
@@ -311,6 +313,16 @@ def _merge(
         point_data={name: values for name, values in point_fields.items()},
         cell_data={name: [cell_fields[ct][name] for ct in cells_dict] for name in raw_cell_field_names},
     )
+
+
+def _concatenate_connectivities(first: Array, second: Array) -> Array:
+    if first.dtype != object and second.dtype != object and first.shape[1:] == second.shape[1:]:
+        return concatenate((first, second))
+    # cells of the same type with differing numbers of corners (e.g. polygons)
+    result = make_uninitialized_array(len(first) + len(second), dtype=object)
+    for i, corners in enumerate(chain(first, second)):
+        result[i] = make_array(corners, dtype=int)
+    return result
 
 
 def _map_duplicate_points(source: protocols.Mesh, target: protocols.Mesh) -> dict[int, int]:
